@@ -195,3 +195,72 @@ def eval_results(tag, pre, exprs, chunk=40):
     with ThreadPoolExecutor(max_workers=8) as ex:
         res = list(ex.map(one, enumerate(chunks)))
     return [x for r in res for x in r]
+
+
+# ------------------------------------------------------------------ character level (proof/StoreText.v)
+PRE_TEXT = '''From Coq Require Import List ZArith.
+From V Require Import lib.Common model.Store.
+From V Require Import model.Ini proof.IniFile proof.IniFile2 proof.StoreText.
+Import ListNotations.
+Local Open Scope nat_scope.
+Definition enc_s (s : list Z) : list Z := Z.of_nat (length s) :: s.
+Definition ltab (tbl : list (list Z)) (n : nat) : list Z := nth n tbl [].
+Definition run_store_text (tbl : list (list Z)) (f : rawfile val) : list Z :=
+  let lt := ltab tbl in
+  [match Store.parse f with Ok _ => 1%Z | _ => 0%Z end; if compat lt f then 1%Z else 0%Z]
+  ++ (let ls := printed lt f in Z.of_nat (length ls) :: flat_map enc_s ls)
+  ++ (let ts := text_store lt f in Z.of_nat (length ts) :: flat_map (fun sc => enc_s (fst sc) ++ Z.of_nat (length (snd sc)) :: flat_map (fun o => enc_s (fst o) ++ enc_s (snd o)) (snd sc)) ts).
+'''
+def zs_of(text): return '([%s]%%Z : list Z)' % '; '.join('%d' % ord(c) for c in text)
+def coq_rawfile_text(model, T):
+    """the raw file with its values as text: (first line, continuation lines as printed: four blanks + piece)"""
+    def val(v):
+        ps = v.split('\n')
+        return '(%s, %s)' % (zs_of(ps[0]), core.coq_list([zs_of('    ' + p) for p in ps[1:]]))
+    return core.coq_list(['(%s, %s)' % (coq_sect(s, T), core.coq_list(['(mkentry %s %d %s)' % (coq_key(e['key'], T), e.get('sp', 0), val(e['val'])) for e in es]))
+                          for (s, es) in model['sections']])
+def store_text_expr(model):
+    T = Tables(); f = coq_rawfile_text(model, T)
+    return '(run_store_text %s %s)' % (core.coq_list([zs_of(l) for l in T.labels]), f)
+def dec_store_text(zs):
+    ok, compat = zs[0], zs[1]; i = 2
+    def rd_s(i):
+        n = zs[i]; return ''.join(chr(c) for c in zs[i + 1:i + 1 + n]), i + 1 + n
+    n = zs[i]; i += 1; lines = []
+    for _ in range(n):
+        l, i = rd_s(i); lines.append(l)
+    n = zs[i]; i += 1; secs = []
+    for _ in range(n):
+        name, i = rd_s(i); m = zs[i]; i += 1; opts = []
+        for _ in range(m):
+            k, i = rd_s(i); v, i = rd_s(i); opts.append((k, v))
+        secs.append((name, opts))
+    assert i == len(zs)
+    return bool(ok), bool(compat), lines, secs
+def label_texts_ok(model):
+    """the hypothesis of the theorems on label texts, for the labels of this model"""
+    T = Tables(); coq_rawfile_text(model, T)
+    bad = set(' \t\n\r=:[]#;->(),')
+    return all(l and not (set(l) & bad) for l in T.labels)
+
+def check_store_text(models, tag, tagged=None):
+    """proof/StoreText.v against the harness' printer and the raw parser, on the given models (dicts with 'sections').
+    Returns (disagreements, stats)."""
+    import ini_common as ic
+    dis = []
+    ms = [m for m in models if label_texts_ok(m) and '$' not in render(m)]
+    res = eval_results(tag, PRE_TEXT, [store_text_expr(m) for m in ms], chunk=20)
+    n_ok = 0
+    for m, zs in zip(ms, res):
+        case = {'kind': 'store_text', 'model': m}
+        ok, compat, lines, secs = dec_store_text(zs)
+        want_lines = render(m).split('\n')[:-1]
+        if lines != want_lines: dis.append({'case': case, 'what': 'the printer of the model and the printer of the harness differ: %r vs %r' % (lines[:6], want_lines[:6])}); continue
+        if not compat: dis.append({'case': case, 'what': 'compat is false for a generated file (distinct keys with one text)'}); continue
+        im = ic.impl_ini(lines)
+        if ok:
+            n_ok += 1
+            if not ic.compare(secs, im): dis.append({'case': case, 'what': 'Store.parse accepts; text_store says %r, the raw parser holds %r' % (secs, im)})
+        elif im is not None and not any(s[0] == ('Variables',) for s, _ in m['sections']):
+            dis.append({'case': case, 'what': 'Store.parse refuses the file but the raw parser reads its text'})
+    return dis, {'store_text_files': len(ms), 'store_text_accepted': n_ok}
